@@ -126,6 +126,13 @@ type chanSend struct {
 }
 
 func chanSends(fn *ssa.Function, isChan core.VPred) []chanSend {
+	return chanSendsDepth(fn, isChan, 0)
+}
+
+// chanSendsDepth also reports sends made through an extracted helper: a static call of a module
+// function that sends on one of its channel parameters, when the argument matches isChan; the
+// reported instruction is the call in fn.
+func chanSendsDepth(fn *ssa.Function, isChan core.VPred, depth int) []chanSend {
 	var out []chanSend
 	core.AllInstrs(fn, func(in ssa.Instruction) {
 		switch x := in.(type) {
@@ -139,9 +146,66 @@ func chanSends(fn *ssa.Function, isChan core.VPred) []chanSend {
 					out = append(out, chanSend{x, st.Chan, st.Send})
 				}
 			}
+		case *ssa.Call:
+			callee := x.Call.StaticCallee()
+			if depth >= 2 || callee == fn || !core.InModule(callee) {
+				return
+			}
+			for i, p := range callee.Params {
+				if i >= len(x.Call.Args) {
+					break
+				}
+				if _, isCh := p.Type().Underlying().(*types.Chan); !isCh || !isChan(x.Call.Args[i]) {
+					continue
+				}
+				p := p
+				for _, inner := range chanSendsDepth(callee, func(v ssa.Value) bool { return v == ssa.Value(p) }, depth+1) {
+					val := inner.Val
+					for j, q := range callee.Params {
+						if val == ssa.Value(q) && j < len(x.Call.Args) {
+							val = x.Call.Args[j]
+						}
+					}
+					out = append(out, chanSend{x, x.Call.Args[i], val})
+				}
+			}
 		}
 	})
 	return out
+}
+
+// selectSendGuard: the condition `chosen == k` of a lowered select whose state k sends on a channel
+// satisfying isChan; the pass edges are the ones on which the send was made (also through a helper
+// returning the outcome, by the guard-wrapper summaries of core.PassEdges).
+func selectSendGuard(name string, isChan core.VPred) core.Guard {
+	return core.Guard{Name: name, Match: func(a core.CondAtom) (bool, bool) {
+		if a.Op != token.EQL {
+			return false, false
+		}
+		var ex *ssa.Extract
+		var k ssa.Value
+		if e, ok := a.X.(*ssa.Extract); ok {
+			ex, k = e, a.Y
+		} else if e, ok := a.Y.(*ssa.Extract); ok {
+			ex, k = e, a.X
+		}
+		if ex == nil || ex.Index != 0 {
+			return false, false
+		}
+		sel, ok := ex.Tuple.(*ssa.Select)
+		if !ok {
+			return false, false
+		}
+		n, ok := core.ConstIntValue(k)
+		if !ok || int(n) < 0 || int(n) >= len(sel.States) {
+			return false, false
+		}
+		st := sel.States[int(n)]
+		if st.Dir != types.SendOnly || !isChan(st.Chan) {
+			return false, false
+		}
+		return true, true
+	}}
 }
 
 // selectSendEdges: for a Select instruction, the CFG edges taken when state idx was chosen.
@@ -394,4 +458,62 @@ func (c *Ctx) modeRecvClass(v ssa.Value) string {
 		return "extract"
 	}
 	return "other"
+}
+
+// withCallees visits every instruction of root and of the module functions it calls statically
+// (transitively, at most depth levels), with core.ParamSubst mapping the callee's parameters to the
+// arguments of the call for the duration of the visit, so that value predicates written for the root
+// function keep matching inside an extracted helper. outer is the instruction of root through which
+// the visited instruction is reached (the instruction itself at level 0).
+func (c *Ctx) withCallees(root *ssa.Function, depth int, visit func(owner *ssa.Function, in ssa.Instruction, outer ssa.Instruction)) {
+	seen := map[*ssa.Function]bool{root: true}
+	var walk func(fn *ssa.Function, outer ssa.Instruction, d int)
+	walk = func(fn *ssa.Function, outer ssa.Instruction, d int) {
+		core.AllInstrs(fn, func(in ssa.Instruction) {
+			o := outer
+			if o == nil {
+				o = in
+			}
+			visit(fn, in, o)
+			ci, ok := in.(ssa.CallInstruction)
+			if !ok || d >= depth {
+				return
+			}
+			if _, isGo := in.(*ssa.Go); isGo {
+				return
+			}
+			callee := ci.Common().StaticCallee()
+			if callee == nil || callee.Blocks == nil || seen[callee] || !core.InModule(callee) {
+				return
+			}
+			seen[callee] = true
+			saved := core.ParamSubst
+			ns := map[ssa.Value]ssa.Value{}
+			for k, v := range saved {
+				ns[k] = v
+			}
+			args := ci.Common().Args
+			for i, p := range callee.Params {
+				if i < len(args) {
+					ns[p] = args[i]
+				}
+			}
+			core.ParamSubst = ns
+			walk(callee, o, d+1)
+			core.ParamSubst = saved
+			delete(seen, callee)
+		})
+	}
+	walk(root, nil, 0)
+}
+
+// callsDeep: fn, or a module function it calls statically (at most depth levels), calls target.
+func (c *Ctx) callsDeep(fn *ssa.Function, target *types.Func, depth int) bool {
+	found := false
+	c.withCallees(fn, depth, func(_ *ssa.Function, in ssa.Instruction, _ ssa.Instruction) {
+		if ci, ok := in.(ssa.CallInstruction); ok && core.CalleeOf(ci.Common()) == target {
+			found = true
+		}
+	})
+	return found
 }
